@@ -700,6 +700,25 @@ def run(repo: Repo, R: Report) -> None:
                 else:
                     ok = ok and from_this_message(a)
             R.check(ok, r_corr, W, "worker_loop", norm(c), "the job's payload is not built, inside the job body, from this message's data and context (state shared between jobs)", c.lineno)
+            # ... and it is this message's data / context themselves: a default may stand in only for a field that is
+            # None - a truthiness test (`msg.data or Default()`) also replaces an *empty* data collection / context
+            # collection, and the queued job then runs on other input than the direct run
+            def reads_field(e: ast.AST) -> bool:
+                return isinstance(e, ast.Attribute) and isinstance(e.value, ast.Name) and e.value.id == msg
+
+            def truthiness_default(v: ast.AST) -> Optional[ast.AST]:
+                if isinstance(v, ast.BoolOp) and isinstance(v.op, ast.Or) and reads_field(v.values[0]):
+                    return v
+                if isinstance(v, ast.IfExp):
+                    t = v.test.operand if isinstance(v.test, ast.UnaryOp) and isinstance(v.test.op, ast.Not) else v.test
+                    if reads_field(t) or (isinstance(t, ast.Call) and call_name(t) in ("bool", "len") and t.args and reads_field(t.args[0])):
+                        return v
+                return None
+
+            for a in c.args:
+                vals = [a] if not isinstance(a, ast.Name) else list(assigned_value(wl, a.id))
+                bad_v = next((b for v in vals for b in [truthiness_default(v)] if b is not None), None)
+                R.check(bad_v is None, r_corr, W, "worker_loop", f"Payload argument `{norm(a)[:30]}` is the message's own field (a default only for None)", f"`{norm(bad_v)[:70] if bad_v is not None else ''}` replaces the job's input whenever it is falsy: an empty data collection (len 0) or an empty context collection is swapped for a default object, so the job does not run on the payload that was queued", getattr(bad_v, "lineno", c.lineno))
         if call_attr(c) == "Pipeline" and c.args:
             a = c.args[0]
             ok = False
